@@ -72,9 +72,8 @@ CONFIG = {
         "options that turn tree labels into additional taxa (suppress_internal_node_taxa=False; case-sensitive reading "
         "of re-cased labels) are not combined with documents that hold CHARACTERS/DATA blocks (only the routes parsing "
         "the matrix can notice that NTAX no longer fits); re-cased labels are not written into documents with matrices",
-        "when DataSet.get refuses a NEXUS document with a parse error that DataSet.get(exclude_chars=True) does not "
-        "raise, the refusal concerns the character block (C20/C09 territory): the tree clauses use exclude_chars=True "
-        "and the matrix clause is skipped (class dataset_route_refuses_character_block)",
+        "every generated document is valid, so a document TreeList.get reads must also be read by DataSet.get / "
+        "DataSet.read (which additionally parse CHARACTERS/DATA/SETS blocks) and by CharacterMatrix.get",
         "while the library under test still tokenizes \"[c]'a b'\" as the unquoted token \"'a\" (C20's finding, probed "
         "once per process), documents with a comment directly in front of a quoted token are skipped (class "
         "skipped:comment_glued_to_quoted_token(C20)); with C20's repair merged nothing is skipped",
@@ -631,19 +630,11 @@ def _check(run):
         run.same_trees(route, Obs(ctx, tl, route), base.trees, ident)
 
     # -- DataSet ---------------------------------------------------------------------------------------------------
-    from dendropy.utility.error import DataParseError
+    # A document the list route reads must be read by the data set route too (it additionally parses the
+    # CHARACTERS/DATA/SETS blocks of these VALID documents; state left behind by those blocks must not leak into the
+    # TREES blocks that follow).
     dskw = {}
     ds, e = attempt(lambda: dendropy.DataSet.get(schema=schema, **dict(src.kw(kinds["dataset"]), **dict(run.nskw(), **opts))))
-    if isinstance(e, DataParseError) and schema == "nexus":
-        # Whether a CHARACTERS/DATA block is readable is C20's / C09's matter (the tree routes never parse it): when
-        # the data set route refuses the document only because of its character blocks, the tree clauses go through the
-        # documented exclude_chars=True and the matrix clause is skipped.
-        ds, e2 = attempt(lambda: dendropy.DataSet.get(schema=schema, exclude_chars=True,
-                                                      **dict(src.kw(kinds["dataset"]), **dict(run.nskw(), **opts))))
-        if e2 is None:
-            ctx.cls("dataset_route_refuses_character_block:%s" % type(e).__name__)
-            dskw = {"exclude_chars": True}
-            e = None
     if e is not None:
         ctx.fail("route_reads_what_the_base_route_reads", "C13.route_raises:DataSet.get:%s" % type(e).__name__,
                  "DataSet.get raised %s: %s although TreeList.get(data=) read the document; %s" % (
@@ -827,7 +818,7 @@ def _check(run):
     else:
         feats = c13_docs.features_of(run.case["doc"])
         feats["blocks"] = len(sizes)
-    for f in ("translate", "comment", "weight"):
+    for f in ("translate", "comment", "weight", "sets"):
         if feats.get(f):
             ctx.cls("feature:%s" % f)
     for o in sorted(opts):
